@@ -81,17 +81,18 @@ func TestConcurrentSend(t *testing.T) {
 			return
 		}
 		lb.SendPacket(dispatch.OutPkt{Pkt: &defn.Pkt{Raw: wb, L3: &spec.Packet{Data: &spec.Data{}}}})
-		okb := wait(func() bool { return len(tb.Frames) == 1 })
+		okb := wait(func() bool { return len(tb.Snapshot()) == 1 })
 		ta.Stall <- struct{}{} // the write completes
-		oka := wait(func() bool { return len(ta.Frames) == 1 })
+		oka := wait(func() bool { return len(ta.Snapshot()) == 1 })
+		fa, fb := ta.Snapshot(), tb.Snapshot()
 		aOK, bOK, aHasB := 0, 0, 0
-		if oka && bytes.Equal(lpFragmentOf(ta.Frames[0]), wa) {
+		if oka && bytes.Equal(lpFragmentOf(fa[0]), wa) {
 			aOK = 1
 		}
-		if okb && bytes.Equal(lpFragmentOf(tb.Frames[0]), wb) {
+		if okb && bytes.Equal(lpFragmentOf(fb[0]), wb) {
 			bOK = 1
 		}
-		if oka && bytes.Equal(lpFragmentOf(ta.Frames[0]), wb) {
+		if oka && bytes.Equal(lpFragmentOf(fa[0]), wb) {
 			aHasB = 1
 		}
 		fmt.Fprintf(fo, "CS %d a_ok=%d b_ok=%d a_has_b=%d\n", k, aOK, bOK, aHasB)
@@ -131,14 +132,15 @@ func TestConcurrentSend(t *testing.T) {
 	}()
 	time.Sleep(400 * time.Millisecond)
 	intact, inOrder := 0, 1
-	for i, f := range ta.Frames {
+	written := ta.Snapshot()
+	for i, f := range written {
 		if i < len(queued) && bytes.Equal(lpFragmentOf(f), queued[i]) {
 			intact++
 		} else {
 			inOrder = 0
 		}
 	}
-	fmt.Fprintf(fo, "QF offered=%d queue=%d written=%d intact=%d in_order=%d\n", len(queued), qs, len(ta.Frames), intact, inOrder)
+	fmt.Fprintf(fo, "QF offered=%d queue=%d written=%d intact=%d in_order=%d\n", len(queued), qs, len(written), intact, inOrder)
 }
 
 func TestTcpLifetime(t *testing.T) {
